@@ -152,6 +152,8 @@ fn count_osstr_chars_for_exec(s: &OsStr) -> usize {
 struct MaxCharsCommandSizeLimiter {
     current_size: usize,
     max_chars: usize,
+    /// What every argument costs on top of its characters.
+    arg_overhead: usize,
 }
 
 impl MaxCharsCommandSizeLimiter {
@@ -159,6 +161,7 @@ impl MaxCharsCommandSizeLimiter {
         Self {
             current_size: 0,
             max_chars,
+            arg_overhead: 0,
         }
     }
 
@@ -174,20 +177,33 @@ impl MaxCharsCommandSizeLimiter {
         // POSIX requires that we leave 2048 bytes of space so that the child processes
         // can have room to set their own environment variables.
         const ARG_HEADROOM: usize = 2048;
-        let arg_max = unsafe { uucore::libc::sysconf(uucore::libc::_SC_ARG_MAX) } as usize;
+        // _SC_ARG_MAX is a quarter of RLIMIT_STACK, but Linux never grants more
+        // than 3/4 of the default 8 MiB stack, however large that limit is.
+        const KERNEL_ARG_MAX: usize = 6 * 1024 * 1024;
+        // Linux counts the pointer to each argument and environment string
+        // against the limit as well (execve(2): "Limits on size of arguments
+        // and environment").
+        const POINTER_SIZE: usize = std::mem::size_of::<*const std::ffi::c_char>();
+        let arg_max = (unsafe { uucore::libc::sysconf(uucore::libc::_SC_ARG_MAX) } as usize)
+            .min(KERNEL_ARG_MAX);
 
         let env_size: usize = env
             .iter()
-            .map(|(var, value)| count_osstr_chars_for_exec(var) + count_osstr_chars_for_exec(value))
+            .map(|(var, value)| {
+                count_osstr_chars_for_exec(var) + count_osstr_chars_for_exec(value) + POINTER_SIZE
+            })
             .sum();
 
         // An environment that (nearly) fills the limit leaves no room at all;
         // the base command is then reported as too large instead of panicking.
-        Self::new(
-            arg_max
-                .saturating_sub(ARG_HEADROOM)
-                .saturating_sub(env_size),
-        )
+        Self {
+            arg_overhead: POINTER_SIZE,
+            ..Self::new(
+                arg_max
+                    .saturating_sub(ARG_HEADROOM)
+                    .saturating_sub(env_size),
+            )
+        }
     }
 }
 
@@ -197,10 +213,10 @@ impl CommandSizeLimiter for MaxCharsCommandSizeLimiter {
         arg: Argument,
         cursor: LimiterCursor<'_>,
     ) -> Result<Argument, ExhaustedCommandSpace> {
-        let chars = count_osstr_chars_for_exec(&arg.arg);
-        if self.current_size + chars <= self.max_chars {
+        let cost = count_osstr_chars_for_exec(&arg.arg).saturating_add(self.arg_overhead);
+        if self.current_size.saturating_add(cost) <= self.max_chars {
             let arg = cursor.try_next(arg)?;
-            self.current_size += chars;
+            self.current_size += cost;
             Ok(arg)
         } else {
             Err(ExhaustedCommandSpace {
